@@ -556,3 +556,18 @@ for _p in ('C01', 'C02', 'C03', 'C04'):
         'of a freed small block at most one aligned word may stay unpoisoned, wherever it is.').strip()
 PROPS['C12']['rule_extension'] = (PROPS['C12'].get('rule_extension') or '') + (' Spinlocks: std::atomic, the __atomic_* builtins, fences and pause are all interposed; ticket order is the order of the '
     'lock() calls\' first successful read-modify-write; a deadlock is declared only after 4000 rounds in which every spinner ran again without any operation taking effect.')
+PROPS['C06']['required_tags'] += ['two-order-trees', 'element-moved-to-the-other-tree']
+PROPS['C18']['required_tags'] += ['bitset-set-nonbool-value']
+PROPS['C13']['required_tags'] += ['vector-own-pool']
+PROPS['C14']['required_tags'] += ['list-initialisable-values']
+# g++ and clang++ resolve `T v{std::move(x)}` differently for list-initialisable T (CWG 2137): the g++ build also runs in the quick tier
+for _r in PROPS['C14']['runs']:
+    if _r['harness'] == 'hashmap_seq_gcc': _r['quick'] = {'rc': rc(3000, sizes=[60, 100], workers=4)}
+PROPS['C09']['required_tags'] += ['plain-value-default-insert', 'plain-value-erase']
+
+# the same printf harness with frigg's documented switch for builds without long double support (kernels): the integer, character and
+# string directives must not depend on it
+HARNESSES['printf_diff_nold'] = {'san': 'asan', 'source': 'printf_diff.cpp', 'replay_as': 'printf_diff',
+                                 'cxxflags': ['-fno-sanitize=nonnull-attribute', '-DFRG_DONT_USE_LONG_DOUBLE', '-DVERIF_HARNESS_NAME="printf_diff_nold"']}
+PROPS['C19']['runs'].append({'harness': 'printf_diff_nold', 'quick': {'rc': rc(8000, sizes=[30, 60], workers=4)}, 'thorough': {'rc': rc(60000, sizes=[30, 60, 120], workers=8)}})
+PROPS['C19']['rule_extension'] = (PROPS['C19'].get('rule_extension') or '') + ' The harness is also built with -funsigned-char and with -DFRG_DONT_USE_LONG_DOUBLE.'
